@@ -235,6 +235,9 @@ func genCase(rt *rapid.T) *Case {
 	}
 	c := b.done()
 	c.Reuse = rapid.IntRange(0, 3).Draw(rt, "reuseStoreValue") == 0
+	if rapid.IntRange(0, 4).Draw(rt, "endingContext") == 0 {
+		c.CtxPolls = rapid.IntRange(1, 6).Draw(rt, "ctxPolls")
+	}
 	return c
 }
 
